@@ -119,10 +119,15 @@ func TestVerifC36(t *testing.T) {
 		// and on disk across minimum advances and restarts
 		vCfg(5, 1000000), "vremote 13", "addlocal 1 c", "setmin 4", "abs", "getbytes 0 13", "reopen", "abs", "setmin 9 13", "reopen", "abs",
 		vCfg(5, 1000000), "addlocal 13 n", "setmin 2", "addlocal 1 n", "reopen", "abs", "setmin 7", "reopen", "abs",
+		// a chunk that the in-flight SetMin has just expired (3) / saved (4) arrives again from another
+		// goroutine while the batch is being written: the lock serialises the two operations
+		vCfg(12, 1000000), "addlocal 1 n", "addlocal 6 n", "racesetmin 5 1", "abs", "reopen", "abs",
+		vCfg(12, 1000000), "addlocal 4 c", "addlocal 6 n", "racesetmin 5 4 4", "abs", "reopen", "abs",
 		vCfg(5, 1000000), "vremote 4", "setcert 4 g", "addlocal 2 c", "setmin 5 4", "reopen", "abs", "gather", "setmin 20", "reopen", "abs"} {
 		o.step(l)
 	}
 	nseq := v.r.N(220, 5000)
+	races := 0
 	for n := 0; n < nseq; n++ {
 		w := []int{5, 12, 40}[rng.Intn(3)]
 		limit := []int{1000000, 1000000, 700, 400}[rng.Intn(4)]
@@ -172,7 +177,17 @@ func TestVerifC36(t *testing.T) {
 					b := rng.Intn(a + 1)
 					save[a], save[b] = save[b], save[a]
 				}
-				o.step(strings.TrimSpace(fmt.Sprintf("setmin %d %s", cur, strings.Join(save, " "))))
+				if races < v.r.N(25, 400) && rng.Chance(12) {
+					// the same, with a chunk (often one this SetMin expires or saves) re-added concurrently
+					races++
+					j := i
+					if len(pend) > 0 && rng.Chance(75) {
+						j = pend[rng.Intn(len(pend))]
+					}
+					o.step(strings.TrimSpace(fmt.Sprintf("racesetmin %d %d %s", cur, j, strings.Join(save, " "))))
+				} else {
+					o.step(strings.TrimSpace(fmt.Sprintf("setmin %d %s", cur, strings.Join(save, " "))))
+				}
 			case x < 86:
 				o.step("reopen")
 			case x < 90:
